@@ -39,6 +39,9 @@ _ROWS = ['a', 'b', 'c', 'd', 'e', 'f', 'g', 'h', 'i', 'j']
 _COLS = ['p', 'q', 'r', 's', 't', 'u']
 
 
+TECHNIQUE = 'runtime monitoring: reference-model oracle (label alignment and cell placement computed on lists) for from_concat / from_concat_items / from_overlay over label relations, block layouts and zero-sized inputs'
+
+
 def probes(ctx):
     fa = {'rows': ['a'], 'cols': ['p'], 'dtypes': ['int64'], 'cells': [[1]], 'lay': 0}
     fb = {'rows': ['b'], 'cols': ['q'], 'dtypes': ['int64'], 'cells': [[2]], 'lay': 0}
